@@ -521,12 +521,16 @@ func (b *Batch) CoqFor(names []string, obs *BatchObs) string {
 	for _, c := range obs.Calls {
 		calls = append(calls, fmt.Sprintf("(%s, %s)", hxs(c.HandlerOf), w.coqCap(c.Can, c.With, c.Nb)))
 	}
+	serveBytesHook(b, names) // servebytes.go: the same request once more, its BODY recorded (coq/Check_ServerBytes.v)
 	return fmt.Sprintf("{| bc_world := %s;\n bc_vis := [%s];\n bc_exec := [%s];\n bc_handlers := [%s];\n bc_server := %s;\n ob_exec_err := %s;\n ob_rcpts := [%s];\n ob_calls := [%s];\n ob_nreceipts := %d |}",
 		world, strings.Join(vis, "; "), strings.Join(exec, "; "), strings.Join(hs, "; "), coqDID(w.Ctx.Authority.DID),
 		coqBool(obs.ExecErr != ""), strings.Join(rc, ";\n   "), strings.Join(calls, ";\n   "), obs.NReceipts)
 }
 
 func writeBatchCases(dir, prefix string, cases []string, shards int) error {
+	if err := flushServeBytes(dir, prefix); err != nil { // servebytes.go: sbytes_*.v next to the case files
+		return err
+	}
 	per := (len(cases) + shards - 1) / shards
 	if per == 0 {
 		per = 1
